@@ -7,7 +7,7 @@ from .common import C, Nat, Opt, Raw, Rec, coq
 ID = "C13"
 COQ_FILES = ["C12/Model.v", "C12/Spec.v", "C12/Proofs.v",
              "C13/Model.v", "C13/Spec.v", "C13/Check.v", "C13/ProofsCB.v", "C13/ProofsSemi.v", "C13/ProofsW.v",
-             "C13/ProofsModes.v", "C13/Proofs.v", "C13/Reflect.v", "C13/Property.v"]
+             "C13/ProofsModes.v", "C13/Proofs.v", "C13/ProofsRanks.v", "C13/Reflect.v", "C13/Property.v"]
 COQ_PRELUDE = ("From Coq Require Import ZArith List Bool.\nImport ListNotations.\n"
                "From KD Require Import C12.Model C12.Spec C13.Model C13.Spec C13.Check.\n")
 COQ_CHECK = "check"
@@ -24,7 +24,20 @@ TRUSTED = [
     "torch.Generator is a deterministic function of its seed and the requests made on it",
     "SemiSampler: the two Tensor.random_() values (rank seed, epoch seed) are recorded inputs of the model; that ranks "
     "get distinct generator seeds is observed on every case (all ranks of W <= 5, and ranks 0..63 once per run), "
-    "not proved; seed + f(rank) + f(epoch) can still collide for (rank a, epoch b) / (rank b, epoch a)",
+    "not proved",
+    "REMARK (no violation of C13's text, which asks for differently seeded streams per rank of ONE epoch): the generator "
+    "seed is seed + f(rank) + f(epoch) with the same f, hence symmetric: rank a in epoch b replays rank b in epoch a "
+    "(proved for every f: semi_rank_epoch_swap_replays; measured every run and printed in input_distribution, e.g. "
+    "seed 5, W 3: (rank 1, epoch 2) and (rank 2, epoch 1) both seed 3663679698 and emit the same stream).  The code's "
+    "own comment says the random offsets are there to avoid exactly that coincidence of seed + epoch + rank; they do "
+    "not.  Changing the derivation changes every pinned index sequence of tests_unit/samplers/test_semi_sampler.py, so "
+    "it is reported, not repaired",
+    "one sampler object over a call sequence (set_epoch(e) / list(sampler) in any order, list(sampler) again without "
+    "set_epoch, back to an earlier epoch): model = set_epoch assigns self.epoch, __iter__ assigns nothing "
+    "(semi_object_history and C12's *_object_history); tied to the code by one real object of a random rank per case, "
+    "replayed in Coq with draw / random_ oracles keyed by the generator seeds",
+    "runaway guard: a sampler run is abandoned after %g s of process CPU time (ITIMER_VIRTUAL) or %g s wall "
+    "(ITIMER_REAL fallback) or %d draws and reported as 'iteration does not return'" % (S.CPU_LIMIT, S.WALL_LIMIT, S.MAX_DRAWS),
     "harness/samplers.py spies (torch.Generator subclass, wrapped randperm/multinomial/Tensor.random_) and rendering",
     "the boolean spec functions evaluated on the implementation's output are proved to imply the Prop-level spec "
     "(checked_*_spec_sound); the glue around them in Check.spec_holds (equal len on all ranks, len = documented "
@@ -34,14 +47,20 @@ ASSUMPTIONS = [
     "world size W >= 1, rank < W; dataset provides getall_class (list of ints, -1 = unlabeled) and getdim_class",
     "class-balanced: because the last len % W entries are cut off for distributed runs, 'all ranks together hold exactly "
     "samples_per_class per class' holds for the global draw and for the ranks when W divides C*spc; otherwise the ranks "
-    "hold a prefix missing fewer than W entries (proved as ranks_union_is_prefix)",
+    "hold a prefix missing (C*spc) mod W < W entries (ranks_union_is_prefix) and every class between "
+    "spc - (C*spc) mod W and spc times (ranks_hold_each_class_up_to_the_cut; the lower bound is attained)",
     "weighted: positive weights for at least `size` entries, 1 <= size <= n or None",
-    "semi: pool exhaustion is per rank (each rank cycles through the pools with its own generator)",
+    "semi: pool exhaustion is per rank (each rank cycles through the pools with its own generator); length modes "
+    "'labeled'/'unlabeled' for W > 1: a rank visits every sample of that pool at most once and makes floor(q/W)..ceil(q/W) "
+    "chunk parts of picks, q = chunks of the whole epoch (all W ranks together therefore visit a sample up to W times)",
 ]
 RULE = ("cb 35% / semi 40% / weighted 25%; label lists of 2..26 entries (thorough ..60) with 2..5 classes, unlabeled (-1) "
         "entries, missing classes and labels >= C; spc None/0/1..13; L,U in 0..4; modes labeled/unlabeled/all/invalid; "
         "W in 1..5, all ranks, epochs None/0..3, seeds 0..999; non-trivial = constructor accepted and a non-empty "
-        "stream; distinct by (kind, n, W, epoch, spc|L,U,mode|size, shuffle)")
+        "stream; distinct by (kind, n, W, epoch, spc|L,U,mode|size, shuffle); every case also drives ONE object of a "
+        "random rank through 2..5 list(sampler) calls (set_epoch(e'), back to e, no set_epoch in between); thorough tier "
+        "adds a directed family of 12 large layouts (n ~ 500 semi with 2..90 pool wrap-arounds per rank, n ~ 200 "
+        "class-balanced with samples_per_class beyond every pool)")
 
 
 # ---------------------------------------------------------------------------
@@ -106,19 +125,65 @@ def gen_weighted(rng, big=False):
             "epoch": rng.choice([None, 0, 1, 2, 3]), "W": rng.choice([1, 2, 2, 3, 3, 4, 5])}
 
 
+def gen_ops(rng, epoch):
+    """call sequence for one sampler object: starts like the per-rank runs (set_epoch(epoch) unless epoch is None, then
+    list(sampler)), then a mix of: list(sampler) again without set_epoch, set_epoch(e') + list, set_epoch(epoch) + list"""
+    ops = ([] if epoch is None else [["set", epoch]]) + [["iter"]]
+    e0 = epoch or 0
+    for _ in range(rng.choice([1, 2, 2, 3])):
+        q = rng.random()
+        if q < 0.35:
+            ops.append(["iter"])
+        elif q < 0.75:
+            ops += [["set", rng.choice([e0 + 1, e0 + 2, rng.randrange(6)])], ["iter"]]
+        else:
+            ops += [["set", e0], ["iter"]]
+    if rng.random() < 0.5:
+        ops += [["set", e0], ["iter"]]
+    return ops
+
+
 def gen_case(rng, big=False):
     r = rng.random()
     if r < 0.35:
-        return gen_cb(rng, big)
-    if r < 0.75:
-        return gen_semi(rng, big)
-    return gen_weighted(rng, big)
+        c = gen_cb(rng, big)
+    elif r < 0.75:
+        c = gen_semi(rng, big)
+    else:
+        c = gen_weighted(rng, big)
+    c["ops"] = gen_ops(rng, c["epoch"])
+    c["ops_rank"] = rng.randrange(c["W"])
+    return c
+
+
+def gen_large(rng):
+    """directed family (thorough tier): pools of 20..375 samples out of n ~ 500 so that a rank wraps around its pools
+    several times in one epoch; class-balanced layouts of ~200 samples with samples_per_class beyond every pool"""
+    out = []
+    for (n, p_unl, L, U, mode, W) in [(500, 0.75, 3, 1, "unlabeled", 1), (500, 0.75, 3, 1, "unlabeled", 3),
+                                      (500, 0.04, 1, 4, "labeled", 1), (480, 0.5, 2, 3, "all", 2),
+                                      (500, 0.96, 4, 1, "unlabeled", 2), (520, 0.25, 1, 3, "labeled", 4),
+                                      (500, 0.9, 2, 2, "unlabeled", 5), (500, 0.1, 4, 4, "labeled", 1)]:
+        classes = [-1 if rng.random() < p_unl else rng.randrange(4) for _ in range(n)]
+        classes[0], classes[1] = 0, -1
+        out.append({"kind": "semi", "classes": classes, "dim": 4, "L": L, "U": U, "mode": mode,
+                    "seed": rng.randrange(1000), "epoch": rng.choice([None, 0, 3]), "W": W})
+    for (n, Cn, spc, W) in [(200, 4, 150, 1), (200, 5, 97, 3), (160, 3, 200, 4), (240, 2, 301, 2)]:
+        classes = list(range(Cn)) + [min(Cn - 1, int(rng.random() ** 2 * Cn)) for _ in range(n - Cn)]
+        rng.shuffle(classes)
+        out.append({"kind": "cb", "classes": classes, "dim": Cn, "spc": spc, "shuffle": True,
+                    "seed": rng.randrange(1000), "epoch": rng.choice([None, 1]), "W": W})
+    for c in out:
+        c["ops"] = [["iter"], ["iter"]] if c["epoch"] is None else [["set", c["epoch"]], ["iter"], ["set", 9], ["iter"],
+                                                                     ["set", c["epoch"]], ["iter"]]
+        c["ops_rank"] = c["W"] - 1
+    return out
 
 
 def gen_cases(rng, tier):
     if tier == "quick":
         return [gen_case(rng) for _ in range(1000)]
-    return [gen_case(rng) for _ in range(4500)] + [gen_case(rng, big=True) for _ in range(1500)]
+    return [gen_case(rng) for _ in range(4500)] + [gen_case(rng, big=True) for _ in range(1500)] + gen_large(rng)
 
 
 def search_cases(rng, tier):
@@ -142,13 +207,24 @@ def search_cases(rng, tier):
 
 
 def shrink(c):
-    if c.get("epoch") not in (None, 0):
+    if c.get("ops"):
+        ops = c["ops"]
+        yield {k: v for k, v in c.items() if k not in ("ops", "ops_rank")}
+        for i in range(len(ops) - 1, 0, -1):
+            yield {**c, "ops": ops[:i] + ops[i + 1:]}
+        if c.get("ops_rank"):
+            yield {**c, "ops_rank": 0}
+    if c.get("epoch") not in (None, 0) and not c.get("ops"):
         yield {**c, "epoch": 0}
     if c.get("seed"):
         yield {**c, "seed": 0}
     if c["W"] > 1:
-        yield {**c, "W": c["W"] - 1}
-        yield {**c, "W": 1}
+        yield {**c, "W": c["W"] - 1, "ops_rank": min(c.get("ops_rank", 0), c["W"] - 2)}
+        yield {**c, "W": 1, "ops_rank": 0}
+    if c["kind"] in ("cb", "semi") and len(c["classes"]) > 60:       # large layouts: halves first
+        h = len(c["classes"]) // 2
+        yield {**c, "classes": c["classes"][:h]}
+        yield {**c, "classes": c["classes"][h:]}
     if c["kind"] in ("cb", "semi"):
         for i in range(len(c["classes"])):
             yield {**c, "classes": c["classes"][:i] + c["classes"][i + 1:]}
@@ -171,43 +247,13 @@ def shrink(c):
 # ---------------------------------------------------------------------------
 # running the real samplers
 # ---------------------------------------------------------------------------
-TIME_LIMIT = 3.0   # seconds per sampler construction + epoch (a real one takes milliseconds)
-
-
-class _Alarm:
-    """wall-clock guard: a loop that makes no draw at all (shuffle=False on an empty pool) is not seen by the draw
-    counter of samplers.Recorder; SIGALRM raises samplers.Runaway inside the running Python loop"""
-
-    def __enter__(self):
-        import signal
-
-        def fire(*a):
-            raise S.Runaway()
-        self.old = signal.signal(signal.SIGALRM, fire)
-        signal.setitimer(signal.ITIMER_REAL, TIME_LIMIT)
-
-    def __exit__(self, *exc):
-        import signal
-        signal.setitimer(signal.ITIMER_REAL, 0)
-        signal.signal(signal.SIGALRM, self.old)
-        return False
-
-
 def run_rank(case, rank, world, **kw):
-    try:
-        with _Alarm():
-            return S.run_rank(case, rank, world, **kw)
-    except S.Runaway:   # fired outside run_rank's own try block
-        return {"result": "RUNAWAY", "stream": [], "len": None, "seeds": [], "draws": [], "alien": False,
-                "random_": [], "kinds": []}
+    return S.run_rank_guarded(case, rank, world, **kw)
 
 
 def run_two_epochs(case, rank, world, e0):
-    try:
-        with _Alarm():
-            return _run_two_epochs(case, rank, world, e0)
-    except S.Runaway:
-        return "RUNAWAY"
+    out, ran_away = S.guarded(_run_two_epochs, case, rank, world, e0)
+    return "RUNAWAY" if ran_away else out
 
 
 def _run_two_epochs(case, rank, world, e0):
@@ -265,7 +311,46 @@ def run_impl(case):
     obs["next"] = {"seeds": nxt["seeds"], "stream": nxt["stream"], "result": nxt["result"]}
     obs["two_epochs"] = run_two_epochs(case, W - 1, W, e)
     obs["next_last"] = run_rank(case, W - 1, W, epoch=e + 1)["stream"]
+    # one sampler object: set_epoch sequences, iterated again without set_epoch
+    obs["hist"] = None
+    if case.get("ops"):
+        hr = case.get("ops_rank", 0)
+        obs["hist"] = S.run_ops_guarded(case, hr, W, case["ops"])
+        obs["fresh"] = {}
+        for ep in sorted(set(iter_epochs(case["ops"]))):
+            f = run_rank(case, hr, W, epoch=ep)
+            obs["fresh"][str(ep)] = {"stream": f["stream"], "result": f["result"]}
+    if case["kind"] == "semi":
+        obs["swap"] = swap_example()
     return obs
+
+
+def iter_epochs(ops):
+    """the epoch in force at every list(sampler) call of a fresh object (self.epoch = 0 initially)"""
+    cur, out = 0, []
+    for op in ops:
+        if op[0] == "set":
+            cur = op[1]
+        else:
+            out.append(cur)
+    return out
+
+
+_SWAP = {}
+
+
+def swap_example():
+    """REMARK (measured once per run, not a violation of C13's text): seed + f(rank) + f(epoch) is symmetric, so
+    (rank 1, epoch 2) and (rank 2, epoch 1) of a world of 3 seed their generators alike and emit the same stream"""
+    if "v" not in _SWAP:
+        case = {"kind": "semi", "classes": [0, -1, 1, -1, -1, 2, 0, -1], "dim": 4, "L": 1, "U": 2, "mode": "all",
+                "seed": 5, "epoch": 0}
+        a = run_rank(case, 1, 3, epoch=2)
+        b = run_rank(case, 2, 3, epoch=1)
+        _SWAP["v"] = {"seed_rank1_epoch2": a["seeds"][-1] if a["seeds"] else None,
+                      "seed_rank2_epoch1": b["seeds"][-1] if b["seeds"] else None,
+                      "same_stream": a["stream"] == b["stream"] and a["result"] == "ok", "stream": a["stream"]}
+    return _SWAP["v"]
 
 
 # ---------------------------------------------------------------------------
@@ -307,7 +392,7 @@ def oracle(case, obs):
     for r, o in enumerate(ranks):
         if o["result"] == "RUNAWAY":
             return (f"rank {r}: construction succeeds but iteration does not return (more than {S.MAX_DRAWS} draws "
-                    f"requested from the generator, or still running after {TIME_LIMIT} s)")
+                    f"requested from the generator, or still running after {S.CPU_LIMIT} s of CPU time)")
         if o["result"] != exp:
             return f"rank {r}: expected {exp}, got {o['result']}"
     if exp != "ok":
@@ -342,6 +427,10 @@ def oracle(case, obs):
     if obs["next"]["seeds"] == ranks[0]["seeds"]:
         return "set_epoch(epoch + 1) does not change the seed of the generator"
 
+    if obs.get("hist"):
+        msg = oracle_history(case, obs, L)
+        if msg:
+            return msg
     if k == "semi":
         return oracle_semi(case, obs, L)
     G = obs["G"]
@@ -359,6 +448,38 @@ def oracle(case, obs):
     if k == "cb":
         return oracle_cb(case, obs, L, G, merged)
     return oracle_weighted(case, obs, L, G, merged)
+
+
+def oracle_history(case, obs, L):
+    """one sampler object: every list(sampler) call has len(sampler) entries and shows what a fresh sampler of that
+    (seed, epoch, rank) shows; calls under equal epochs show equal streams"""
+    hist = [r for r in obs["hist"] if r is not None]
+    eps = iter_epochs(case["ops"])
+    hr = case.get("ops_rank", 0)
+    what = f"one sampler object (rank {hr}) driven through {case['ops']}"
+    for k, (ep, r) in enumerate(zip(eps, hist)):
+        if r["result"] == "RUNAWAY":
+            return f"{what}: list(sampler) call {k} does not return"
+        if r["result"] != "ok":
+            return f"{what}: list(sampler) call {k} (epoch {ep}) fails with {r['result']}"
+        if r["alien"]:
+            return f"{what}: call {k} draws without the epoch's generator"
+        if r["len"] != L or len(r["stream"]) != L:
+            return f"{what}: call {k} (epoch {ep}) has len {r['len']} and yields {len(r['stream'])} indices, expected {L}"
+        fr = obs["fresh"][str(ep)]
+        if fr["result"] != "ok" or fr["stream"] != r["stream"]:
+            return (f"{what}: call {k} under epoch {ep} yields {r['stream']}, a fresh sampler with equal "
+                    f"(seed, epoch, rank) yields {fr['stream']} ({fr['result']})")
+        if case["kind"] != "semi" and r["seeds"] != [case["seed"] + ep]:
+            return f"{what}: call {k} seeds its generator with {r['seeds']}, not [seed + epoch] = [{case['seed'] + ep}]"
+        if case["kind"] == "semi" and r["seeds"][:2] != [hr, ep]:
+            return f"{what}: call {k} seeds its generators with {r['seeds']}, expected [rank, epoch, ...] = [{hr}, {ep}, ...]"
+    for a in range(len(hist)):
+        for b in range(a + 1, len(hist)):
+            if eps[a] == eps[b] and hist[a]["stream"] != hist[b]["stream"]:
+                return (f"{what}: calls {a} and {b} are both under epoch {eps[a]} but yield {hist[a]['stream']} "
+                        f"and {hist[b]['stream']}")
+    return None
 
 
 def oracle_cb(case, obs, L, G, merged):
@@ -387,9 +508,11 @@ def oracle_cb(case, obs, L, G, merged):
     # the ranks together, without reference to the world-size-1 run
     pm = Counter(classes[x] for x in merged)
     for c in range(Cn):
-        if pm[c] > spc or (E % W == 0 and pm[c] != spc):
+        if pm[c] > spc or pm[c] < spc - E % W:
             return (f"all ranks together hold {pm[c]} indices of class {c}, samples_per_class = {spc} "
-                    f"(W = {W}, {E - W * L} trailing entries cut off)")
+                    f"(W = {W}, {E - W * L} trailing entries cut off: between {spc - E % W} and {spc} expected)")
+    if sum(pm[c] for c in range(Cn)) != W * L or sum(spc - pm[c] for c in range(Cn)) != E % W:
+        return f"all ranks together hold {sum(pm.values())} indices, expected {W * L} = {E} - {E % W}"
     if not case["shuffle"]:
         want = []
         for c in range(Cn):
@@ -422,13 +545,21 @@ def oracle_semi(case, obs, L):
             or check_blocks("unlabeled", unl, [x for x in s if classes[x] == -1])
         if msg:
             return f"rank {r}: {msg}; stream {s}"
-        if W == 1 and case["mode"] in ("labeled", "unlabeled"):
+        n_lab = sum(1 for x in s if classes[x] != -1)
+        cc = Ln + Un
+        if n_lab != (L // cc) * Ln + min(L % cc, Ln):
+            return (f"rank {r}: {n_lab} labeled picks in a stream of {L} indices, the L/U pattern means "
+                    f"{(L // cc) * Ln + min(L % cc, Ln)}")
+        if case["mode"] in ("labeled", "unlabeled"):
             want_l = case["mode"] == "labeled"
             pool, per = (lab, Ln) if want_l else (unl, Un)
             picks = [x for x in s if (classes[x] != -1) == want_l]
-            if len(set(picks)) != len(picks) or not len(pool) - per < len(picks) <= len(pool):
-                return (f"length_mode={case['mode']}: one epoch must visit every {case['mode']} sample at most once and "
-                        f"all but fewer than {per} of the {len(pool)}; visited {sorted(picks)}")
+            q = len(pool) // per
+            if len(set(picks)) != len(picks) or not (q // W) * per <= len(picks) <= -(-q // W) * per \
+                    or len(picks) > len(pool) or (W == 1 and len(pool) - per >= len(picks)):
+                return (f"rank {r}, length_mode={case['mode']}, W={W}: a rank must visit every {case['mode']} sample at "
+                        f"most once and make {(q // W) * per}..{-(-q // W) * per} picks from the {len(pool)} "
+                        f"{case['mode']} samples ({q} chunks in the epoch); visited {sorted(picks)}")
         rnd = [v for _, v in o["random_"]]
         if len(o["seeds"]) != 3 or len(rnd) != 2 or o["seeds"] != [r, e, case["seed"] + rnd[0] + rnd[1]]:
             return (f"rank {r}: generators seeded with {o['seeds']} (random_ values {rnd}); expected "
@@ -494,16 +625,35 @@ def coq_applicable(case, obs):
         return False
     if case["kind"] == "semi" and (case["L"] < 0 or case["U"] < 0):
         return False
+    if len(obs["ranks"]) != case["W"]:      # a rank ran away: reported by the oracle, nothing to compare
+        return False
+    if any(r is not None and r["result"] not in S.CODE for r in (obs.get("hist") or [])):
+        return False
     return all(o["result"] in S.CODE for o in obs["ranks"])
 
 
 def coq_case(case, obs):
-    return coq((coq_cfg(case), [coq_rank(o) for o in obs["ranks"]], S.nats(obs["G"])))
+    hs = []
+    if obs.get("hist"):
+        for op, r in zip(case["ops"], obs["hist"]):
+            hs.append(C("HSet", int(op[1])) if op[0] == "set" else C("HIter", Raw(coq(coq_rank(r)))))
+    hist = (Nat(case.get("ops_rank", 0)), Raw("[" + "; ".join(str(h) for h in hs) + "]"))
+    return coq((coq_cfg(case), [coq_rank(o) for o in obs["ranks"]], S.nats(obs["G"]), hist))
 
 
 def features(case, obs):
     k = case["kind"]
     yield "kind=" + k
+    if case.get("ops"):
+        eps = iter_epochs(case["ops"])
+        yield "ops:iterated again without set_epoch=%s" % any(
+            a[0] == "iter" and b[0] == "iter" for a, b in zip(case["ops"], case["ops"][1:]))
+        yield "ops:returns to an earlier epoch=%s" % any(
+            eps[i] == eps[j] and any(eps[m] != eps[i] for m in range(i, j)) for i in range(len(eps)) for j in range(i, len(eps)))
+    if obs.get("swap"):
+        w = obs["swap"]
+        yield ("remark:semi (rank 1, epoch 2) and (rank 2, epoch 1) seed alike (%s / %s) and emit the same stream=%s"
+               % (w["seed_rank1_epoch2"], w["seed_rank2_epoch1"], w["same_stream"]))
     yield "W=%d" % case["W"]
     yield "epoch=%s" % case["epoch"]
     if "ranks" in obs:
@@ -528,6 +678,8 @@ def features(case, obs):
             pl = sum(1 for x in s if case["classes"][x] != -1)
             yield "semi:labeled_pool_wraps=%s" % (pl > nl)
             yield "semi:unlabeled_pool_wraps=%s" % (len(s) - pl > nu)
+            if len(case["classes"]) >= 400:
+                yield "semi:large:labeled_pool_wraps=%d,unlabeled_pool_wraps=%d" % (pl // nl, (len(s) - pl) // nu)
     if k == "weighted":
         yield "weighted:size=%s" % ("None" if case["size"] is None else "given")
         yield "weighted:zero_weights=%s" % (0.0 in case["weights"])
